@@ -78,6 +78,8 @@ pub fn natives() -> Vec<Spec> {
 	for k in KINDS {
 		out.push(Spec::Native(Native::Arr3(k, [0, 1, 2])));
 		out.push(Spec::Native(Native::Arr3(k, [2, 0, 1])));
+		out.push(Spec::Native(Native::Arr3Unchecked(k, [2, 0, 1])));
+		out.push(Spec::Native(Native::Arr3Unchecked(k, [1, 2, 0])));
 		out.push(Spec::Native(Native::TupMR(k, 0, 0)));
 		out.push(Spec::Native(Native::Slice(k, vec![])));
 		out.push(Spec::Native(Native::Slice(k, vec![1])));
@@ -87,6 +89,8 @@ pub fn natives() -> Vec<Spec> {
 		out.push(Spec::Native(Native::VecsNew(k)));
 		out.push(Spec::Native(Native::VecsRefs(k)));
 		out.push(Spec::Native(Native::OwnedDescIn(k, 2)));
+		out.push(Spec::Native(Native::OwnedDescRef(k, 2)));
+		out.push(Spec::Native(Native::OwnedDescRef(k, 3)));
 	}
 	out.push(Spec::Native(Native::VecsFromRef));
 	out.push(Spec::Native(Native::BoxedTupVecs(vec![1, 0], vec![2, 0])));
